@@ -10,7 +10,8 @@
    CJumpPass           cjmp on two constants -> jmp                    (cjump_const; raw values: refuted
                                                                         for out-of-range constants)
    DeleteUnused        dropping an unused pure instruction             (dead); Alloc is NOT state-neutral
-   LoadAfterStore      load after store to the same address            (las_mem, las)
+   LoadAfterStore      NOT proved here (needs the read-after-write lemma of IRSem memory and value
+                       ranges); the pass is covered by differential execution only
    Values are "in range" when wrap_bits bits sg z = z (IRSem keeps every integer value normalised). *)
 From PV Require Import Lib.Py Lib.Tac Spec.IRSyntax Spec.IRSem.
 From Coq Require Import String.
